@@ -298,6 +298,16 @@ let cmd_doc (args : string list) : string =
     let rp = get_rep r in
     "ok " ^ print_doc (render (restrict_pool rp.r_pool (parse_clients parse_set_ranges ids)) rp.r_ds)
   | ["ds"; r] -> "ok " ^ print_idset (get_rep r).r_ds
+  | "localop" :: r :: ids :: key :: i :: mode ->
+    (* where a local insertion at live index i of the sequence `key` lands: origin and right origin of the created unit *)
+    let rp = get_rep r in
+    let (d, _) = render (restrict_pool rp.r_pool (parse_clients parse_set_ranges ids)) rp.r_ds in
+    let l = (match List.find_opt (fun (k, _) -> print_seqkey k = key) d.d_lists with Some (_, l) -> l | None -> []) in
+    (* Text::insert and BlockIter (arrays) move on over the tombstones that follow; Branch::insert_at (XML children) does not *)
+    let (a, b) = if mode = ["direct"] then split_live (nat_of_int (int_of_string i)) l else split_gap (nat_of_int (int_of_string i)) l in
+    let last_id = (match List.rev a with x :: _ -> Some x.d_op.oid | [] -> None) in
+    let head_id = (match b with x :: _ -> Some x.d_op.oid | [] -> None) in
+    "ok " ^ print_oid last_id ^ " " ^ print_oid head_id
   | _ -> "err badcmd"
 
 (* ---------- codecs ---------- *)
